@@ -21,6 +21,7 @@ from .runner import Sub, exc_signature
 from . import strategies as S
 from . import ops as O
 from . import c02
+from . import responses as R
 from .normalize import canon, vcanon, Opts
 
 PROPERTY = 'C19'
@@ -531,9 +532,137 @@ class MockObservers(_c04.Machine):
             sup()
 
 
+# ---------------------------------------------------------------------------
+# sub-check: stats_history - statistics over a sequence of operations on one
+# connection, with reset()/disable()/enable() in between, against a counter
+# model
+
+_STAT_OPS = ['EnumerateInstanceNames', 'EnumerateClassNames', 'GetClass',
+             'DeleteInstance', 'EnumerateInstances', 'InvokeMethod']
+
+
+def stats_strategy():
+    @st.composite
+    def strat(draw):
+        steps = []
+        for _ in range(draw(st.integers(2, 14))):
+            k = draw(S._I100)
+            if k < 12:
+                steps.append(('reset',))
+            elif k < 16:
+                steps.append(('disable',))
+            elif k < 20:
+                steps.append(('enable',))
+            elif k < 24:
+                steps.append(('snapshot',))
+            else:
+                # few names, so that the same name often follows itself
+                name = _STAT_OPS[min(draw(S._I10) % 8, 5) % (
+                    2 if draw(S._B) else 6)]
+                outcome = draw(st.sampled_from(
+                    ['ok', 'ok', 'ok', 'cimerror', 'fault', 'http', 'garbage']))
+                steps.append(('op', name, outcome))
+        return {'enabled': draw(st.sampled_from([True, True, True, False])),
+                'steps': steps}
+    return strat()
+
+
+def stats_oracle(ctx, ex):
+    from .xmlserver import connect, Resp, error_response, \
+        request_method_name
+    calls = c02._fixed_calls()
+    current = {'outcome': 'ok'}
+
+    def responder(req):
+        tag, name = request_method_name(req.body)
+        out = current['outcome']
+        if out == 'fault':
+            return Resp(exc=c02.make_fault('ConnectionError'))
+        if out == 'http':
+            return Resp(b'', status=500, reason='Internal Server Error')
+        if out == 'garbage':
+            return Resp(b'<CIM')
+        if out == 'cimerror':
+            return Resp(error_response(tag, name, 4))
+        return Resp(R.valid_response(tag, name, c02._FIXED_POOL,
+                                     True).encode('utf-8'))
+    conn, _ad = connect(responder, stats_enabled=ex['enabled'])
+    stats = conn.statistics
+    enabled = ex['enabled']
+    model = {}                  # name -> [count, exception_count]
+    n_ops = n_after_reset = 0
+    had_reset = False
+    try:
+        for step in ex['steps']:
+            if step[0] == 'reset':
+                did = stats.reset()
+                if did:
+                    model = {}
+                    had_reset = True
+                    n_after_reset = 0
+            elif step[0] == 'disable':
+                stats.disable()
+                enabled = False
+            elif step[0] == 'enable':
+                stats.enable()
+                enabled = True
+            elif step[0] == 'op':
+                _op, name, outcome = step
+                current['outcome'] = outcome
+                call = calls[name][0]
+                try:
+                    O.invoke(conn, call)
+                    failed = False
+                except pywbem.Error:
+                    failed = True
+                n_ops += 1
+                n_after_reset += 1
+                if enabled:
+                    m = model.setdefault(name, [0, 0])
+                    m[0] += 1
+                    m[1] += 1 if failed else 0
+            # after every step: what the statistics show equals the model
+            snap = {k: (v.count, v.exception_count)
+                    for k, v in stats.snapshot()}
+            want = {k: tuple(v) for k, v in model.items()}
+            if snap != want:
+                ctx.fail('statistics:snapshot-differs-from-operations-'
+                         'finished' + (':after-reset' if had_reset else ''),
+                         'after step %r: snapshot %r, expected %r' %
+                         (step, snap, want))
+                break
+            for k, v in model.items():
+                one = stats.get_op_statistic(k)
+                if enabled and (one.count, one.exception_count) != tuple(v):
+                    ctx.fail('statistics:get_op_statistic-differs-from-'
+                             'snapshot', '%s: %r vs %r' %
+                             (k, (one.count, one.exception_count), v))
+                    break
+    finally:
+        conn.close()
+    names = [s_[1] for s_ in ex['steps'] if s_[0] == 'op']
+    repeated_after_reset = False
+    last = None
+    for s_ in ex['steps']:
+        if s_[0] == 'op':
+            if last == ('reset', s_[1]):
+                repeated_after_reset = True
+            last = ('op', s_[1])
+        elif s_[0] == 'reset' and last and last[0] == 'op':
+            last = ('reset', last[1])
+    ctx.case(nontrivial=n_ops >= 2 and len(set(names)) >= 1,
+             classes=['stats:ops=%d' % min(n_ops, 10),
+                      'stats:reset-between-operations-of-one-name'
+                      if repeated_after_reset else 'stats:no-such-reset',
+                      'stats:initially-' + ('on' if ex['enabled'] else
+                                            'off')])
+
+
 SUBCHECKS = [
     Sub('observers', strategy=strategy, oracle=oracle,
         quick=(16, 400), thorough=(16, 15000), case_timeout=120),
     Sub('mock_observers', machine=MockObservers, quick=(8, 30),
         thorough=(16, 800), steps=(20, 40), case_timeout=120),
+    Sub('stats_history', strategy=stats_strategy, oracle=stats_oracle,
+        quick=(4, 300), thorough=(16, 5000)),
 ]
